@@ -1,4 +1,5 @@
 import Netpol.Proofs.CacheLayer
+import Std.Data.String.ToInt
 /-! # C15 — the evaluation cache is transparent
 
 After any sequence of inserts / deletes / queries, `CheckIfAllowed` returns what the same engine
@@ -14,11 +15,18 @@ string determines everything the evaluation reads. `OpsConsistent attrs nsOf ops
 history `ops`: owned pods ever inserted are real pods whose labels, ports and namespace are
 functions (`attrs`, `nsOf`) of their owner key ("pods with one owner key are interchangeable"), and
 the concatenation can be split in one way only on the owner keys and the (protocol, port) strings
-of the history. The last clause cannot be dropped: with pods `n/a/v`, `n/b/v` the queries
-`(proto, port) = ("TCP/80", "80")` and `("TCP", "80/80")` have the same key, the first is answered
-`false` by a policy with ports (unknown protocol) and cached, the second is an error (`badPort`)
-without cache (remark, not a theorem here). Hence the queried strings of the final query belong to the hypothesis:
-`OpsConsistent attrs nsOf (ops ++ [.q src dst proto port])`. -/
+of the history. The last clause cannot be dropped: with a source pod of owner key `n/a/v` and
+destination pods of owner keys `n/b/v` and `n/b/v/x` (the model puts no constraint on the variant
+string) the queries `(proto, port) = ("x/TCP", "80")` towards the first and `("TCP", "80")` towards
+the second have the same key `n/a/v/n/b/v/x/TCP/80`; the first is answered `false` by a policy with
+ports (unknown protocol) and cached, the second may be `true` without cache (remark, not a theorem
+here). Hence the queried strings of the final query belong to the hypothesis:
+`OpsConsistent attrs nsOf (ops ++ [.q src dst proto port])`.
+
+A collision on the port string alone is harmless since the port is validated before the cache
+lookup: a port that parses contains no `/`, and a query whose port does not parse — such as
+`("TCP", "80/80")`, whose key is that of `("TCP/80", "80")` — is rejected before the lookup, in any
+state and without any hypothesis (`bad_port_answer`, `Example.collision_rejected`). -/
 namespace Netpol.Properties.C15
 open Netpol EState
 
@@ -129,6 +137,142 @@ theorem delete_absent_anp_reachable (n : Nat) (ops : List HOp) (a : ANP)
       (.ok, (EState.run { cache := { cap := n } } ops).cacheClear) :=
   delete_absent_anp_of_admInv _ (anps_names_invariant n ops) a h
 
+/-! ## the query port is validated before the cache lookup and before any rule is examined
+
+`CheckIfAllowed` parses the port string right after the pod-to-itself check: before the cache
+lookup and before the egress walk. (Formerly `strconv.ParseInt` ran only inside a rule with ports
+that happened to be examined, and the policies are visited in map order: a port that does not
+parse was answered with an error or with a verdict depending on the iteration order. Validating
+only after the cache lookup would still let such a query be answered from a colliding cache key:
+`Example.collision_rejected`.) A query "names a connection" when `proto != "" || port != ""`; its
+port must parse (`EState.badQuery`). None of the theorems below has a hypothesis on the state, the
+history or the cache. -/
+
+/-- a query that names a connection and whose port does not parse -/
+theorem badQuery_iff (proto port : String) :
+    badQuery proto port = true ↔ (proto != "" || port != "") = true ∧ port.toInt? = none := by
+  simp only [badQuery, Bool.and_eq_true, Option.isNone_iff_eq_none]
+
+/-- **the verdict on such a query does not read the policies**: on resolved peers it is `badPort`
+for every engine — no rule is examined, so the order in which policies and rules are visited
+cannot matter -/
+theorem bad_port_verdict (e : Engine) (sp dp : KPeer) (proto port : String)
+    (hport : port.toInt? = none) (hne : (proto != "" || port != "") = true) :
+    verdict e sp dp proto port = .error .badPort :=
+  verdict_of_badQuery e sp dp (badQuery_of_none hport hne)
+
+/-- **a port that does not parse is always rejected** (any state, whatever is cached): the peers
+resolve, are not one pod, the query names a connection and its port does not parse: the answer is
+the error `badPort` -/
+theorem bad_port_always_rejected (s : EState) (src dst proto port : String) (sp dp : KPeer)
+    (hs : getPeer s.eng src = .ok sp) (hd : getPeer s.eng dst = .ok dp)
+    (hself : Engine.isPodToItself sp dp = false)
+    (hport : port.toInt? = none) (hne : (proto != "" || port != "") = true) :
+    (s.checkIfAllowed src dst proto port).1 = .error .badPort := by
+  rw [checkIfAllowed_badQuery s src dst hs hd hself (badQuery_of_none hport hne)]
+
+/-- … and the state is left as it is: nothing is cached for it, no cache entry is touched (the
+LRU order is unchanged) -/
+theorem bad_port_leaves_state (s : EState) (src dst proto port : String) (sp dp : KPeer)
+    (hs : getPeer s.eng src = .ok sp) (hd : getPeer s.eng dst = .ok dp)
+    (hself : Engine.isPodToItself sp dp = false)
+    (hport : port.toInt? = none) (hne : (proto != "" || port != "") = true) :
+    s.checkIfAllowed src dst proto port = (.error .badPort, s) :=
+  checkIfAllowed_badQuery s src dst hs hd hself (badQuery_of_none hport hne)
+
+/-- **the complete answer to such a query, in any state**: a peer resolution error, `true` for one
+pod, `badPort` otherwise — never a cached or computed verdict; the state is left as it is -/
+theorem bad_port_answer (s : EState) (src dst proto port : String)
+    (hport : port.toInt? = none) (hne : (proto != "" || port != "") = true) :
+    s.checkIfAllowed src dst proto port =
+      (match getPeer s.eng src with
+      | .error e => .error e
+      | .ok sp =>
+        match getPeer s.eng dst with
+        | .error e => .error e
+        | .ok dp => if Engine.isPodToItself sp dp then .ok true else .error .badPort, s) :=
+  checkIfAllowed_badQuery_eq s src dst (badQuery_of_none hport hne)
+
+/-- without cache the answer to such a query is the same -/
+theorem bad_port_uncached (s : EState) (src dst proto port : String)
+    (hport : port.toInt? = none) (hne : (proto != "" || port != "") = true) :
+    s.uncached src dst proto port =
+      match getPeer s.eng src with
+      | .error e => .error e
+      | .ok sp =>
+        match getPeer s.eng dst with
+        | .error e => .error e
+        | .ok dp => if Engine.isPodToItself sp dp then .ok true else .error .badPort :=
+  uncached_badQuery s src dst (badQuery_of_none hport hne)
+
+/-- **the cache is transparent for such a query without any assumption** on the history or the
+keys (compare `cache_transparent`) -/
+theorem bad_port_transparent (s : EState) (src dst proto port : String)
+    (hport : port.toInt? = none) (hne : (proto != "" || port != "") = true) :
+    (s.checkIfAllowed src dst proto port).1 = s.uncached src dst proto port := by
+  rw [bad_port_answer s src dst proto port hport hne, bad_port_uncached s src dst proto port hport hne]
+
+/-- **history level, without any assumption**: in every reachable state each cached verdict was
+stored for a query that passed the validation (its key is `connKey sp dp proto port` of a query
+`proto`, `port` that names no connection or whose port parses) -/
+theorem cache_only_validated (n : Nat) (ops : List HOp) :
+    (EState.run { cache := { cap := n } } ops).CacheValidated :=
+  EState.run_validated (CacheValidated.of_empty rfl) ops
+
+/-- **history level**: after any history whatsoever (no consistency assumption), a query that names
+a connection and whose port does not parse is answered by a peer resolution error, by `true` for
+one pod, and by `badPort` otherwise; never by a cached or computed verdict -/
+theorem bad_port_after_history (n : Nat) (ops : List HOp) (src dst proto port : String)
+    (hport : port.toInt? = none) (hne : (proto != "" || port != "") = true) :
+    ((EState.run { cache := { cap := n } } ops).checkIfAllowed src dst proto port).1 =
+      match getPeer (EState.run { cache := { cap := n } } ops).eng src with
+      | .error e => .error e
+      | .ok sp =>
+        match getPeer (EState.run { cache := { cap := n } } ops).eng dst with
+        | .error e => .error e
+        | .ok dp => if Engine.isPodToItself sp dp then .ok true else .error .badPort := by
+  rw [bad_port_answer _ src dst proto port hport hne]
+
+/-- **after any history a port that does not parse is never answered with a verdict**: resolved
+peers that are not one pod get `badPort`, whatever was queried and cached before -/
+theorem bad_port_never_answered (n : Nat) (ops : List HOp) (src dst proto port : String)
+    (sp dp : KPeer)
+    (hs : getPeer (EState.run { cache := { cap := n } } ops).eng src = .ok sp)
+    (hd : getPeer (EState.run { cache := { cap := n } } ops).eng dst = .ok dp)
+    (hself : Engine.isPodToItself sp dp = false)
+    (hport : port.toInt? = none) (hne : (proto != "" || port != "") = true) :
+    ((EState.run { cache := { cap := n } } ops).checkIfAllowed src dst proto port).1 =
+      .error .badPort :=
+  bad_port_always_rejected _ src dst proto port sp dp hs hd hself hport hne
+
+/-- in any state the only `ok` answer to such a query is the `true` of a pod to itself -/
+theorem bad_port_ok_only_self (s : EState) (src dst proto port : String) (v : Bool)
+    (hport : port.toInt? = none) (hne : (proto != "" || port != "") = true)
+    (hv : (s.checkIfAllowed src dst proto port).1 = .ok v) :
+    v = true ∧ ∃ sp dp, getPeer s.eng src = .ok sp ∧ getPeer s.eng dst = .ok dp ∧
+      Engine.isPodToItself sp dp = true := by
+  rw [bad_port_answer s src dst proto port hport hne] at hv
+  cases h1 : getPeer s.eng src with
+  | error e => rw [h1] at hv; cases hv
+  | ok sp =>
+    cases h2 : getPeer s.eng dst with
+    | error e => rw [h1, h2] at hv; cases hv
+    | ok dp =>
+      rw [h1, h2] at hv
+      simp only at hv
+      by_cases hself : Engine.isPodToItself sp dp = true
+      · rw [if_pos hself] at hv
+        cases hv
+        exact ⟨rfl, sp, dp, rfl, rfl, hself⟩
+      · rw [if_neg hself] at hv; cases hv
+
+/-- a history never changes its state on such a query: the step is the identity -/
+theorem bad_port_step (s : EState) (src dst proto port : String)
+    (hport : port.toInt? = none) (hne : (proto != "" || port != "") = true) :
+    (s.step (.q src dst proto port)).1 = s := by
+  show (s.checkIfAllowed src dst proto port).2 = s
+  rw [bad_port_answer s src dst proto port hport hne]
+
 /-! ## non-vacuity: a concrete history
 
 `ns n`, two owned pods `n/a`, `n/b`, a query (allowed, cached under the owner key), a NetworkPolicy
@@ -226,9 +370,22 @@ def hist : List HOp := setup ++ [query, .ins (.np denyB)]
 
 example : variantOf podA.labels podA.ports = podA.variant := by decide +kernel
 
+/-- the port string of the example parses (`Nat.toInt?_repr` of the toolchain's
+`Std.Data.String.ToInt`; `String.toInt?` does not reduce in the kernel) -/
+theorem toInt_80 : "80".toInt? = some 80 := Nat.toInt?_repr 80
+
+/-- so the validation of the query port passes and the verdict is the walk -/
+theorem verdict_tcp_80 (e : Engine) (sp dp : KPeer) :
+    verdict e sp dp "TCP" "80" = walk e sp dp "TCP" "80" := verdict_of_toInt e sp dp toInt_80
+
+theorem answer_tcp_80 (s : EState) (sp dp : KPeer) :
+    s.answer sp dp "TCP" "80" = s.cachedAnswer sp dp "TCP" "80" :=
+  answer_goodQuery s sp dp (badQuery_of_toInt toInt_80)
+
 /-- first query: allowed -/
 theorem first_answer : ((init.run setup).checkIfAllowed "n/a" "n/b" "TCP" "80").1 = .ok true := by
   rw [checkIfAllowed_eq, getPeer_na, getPeer_nb]
+  simp only [answer_tcp_80, cachedAnswer, verdict_tcp_80]
   rfl
 
 
@@ -244,6 +401,7 @@ theorem after_first : init.run (setup ++ [query]) =
   rw [run_append]
   show ((init.run setup).checkIfAllowed "n/a" "n/b" "TCP" "80").2 = _
   rw [checkIfAllowed_eq, getPeer_na, getPeer_nb]
+  simp only [answer_tcp_80, cachedAnswer, verdict_tcp_80]
   rfl
 
 theorem hist_eq : hist = (setup ++ [query]) ++ [.ins (.np denyB)] := rfl
@@ -256,10 +414,12 @@ theorem after_update : (init.run hist).cache.items = [] ∧ (init.run hist).eng.
 /-- second, identical query: now denied -/
 theorem second_answer : ((init.run hist).checkIfAllowed "n/a" "n/b" "TCP" "80").1 = .ok false := by
   rw [hist_eq, run_append, after_first, checkIfAllowed_eq, getPeer_na, getPeer_nb]
+  simp only [answer_tcp_80, cachedAnswer, verdict_tcp_80]
   rfl
 
 theorem second_uncached : (init.run hist).uncached "n/a" "n/b" "TCP" "80" = .ok false := by
   rw [hist_eq, run_append, after_first, uncached_eq, getPeer_na, getPeer_nb]
+  simp only [verdict_tcp_80]
   rfl
 
 /-- the clearing matters: with the cache of before the update the stale verdict would leak -/
@@ -267,6 +427,7 @@ theorem stale_would_leak :
     (({ init.run hist with cache := (init.run (setup ++ [query])).cache } : EState).checkIfAllowed
       "n/a" "n/b" "TCP" "80").1 = .ok true := by
   rw [hist_eq, run_append, after_first, checkIfAllowed_eq, getPeer_na, getPeer_nb]
+  simp only [answer_tcp_80, cachedAnswer, verdict_tcp_80]
   rfl
 
 def exAttrs (k : String) : Labels × List CPort :=
@@ -283,6 +444,7 @@ theorem hit_answer :
     ((init.run (setup ++ [query])).checkIfAllowed "n/a" "n/b" "TCP" "80").1 = .ok true ∧
     (init.run (setup ++ [query])).uncached "n/a" "n/b" "TCP" "80" = .ok true := by
   rw [after_first, checkIfAllowed_eq, uncached_eq, getPeer_na, getPeer_nb]
+  simp only [answer_tcp_80, cachedAnswer, verdict_tcp_80]
   exact ⟨rfl, rfl⟩
 
 /-- `cache_transparent` applied to the history: its hypothesis holds, its conclusion is the
@@ -294,6 +456,128 @@ example : ((init.run hist).checkIfAllowed "n/a" "n/b" "TCP" "80").1 =
 example : ((init.run hist).checkIfAllowed "n/a" "n/b" "TCP" "80").1 ≠
     ((init.run setup).checkIfAllowed "n/a" "n/b" "TCP" "80").1 := by
   rw [second_answer, first_answer]; intro h; cases h
+
+/-! ### the validation of the query port -/
+
+/-- a string with a character that is no digit, no `_` and no `-` is no integer (from the
+characterisation `String.isInt_iff` / `String.isNat_iff` of the toolchain's
+`Std.Data.String.ToInt`; `String.toInt?` does not reduce in the kernel) -/
+theorem toInt?_eq_none_of_mem {s : String} {c : Char} (hm : c ∈ s.toList) (hd : c.isDigit = false)
+    (hu : c ≠ '_') (hmin : c ≠ '-') : s.toInt? = none := by
+  rw [String.toInt?_eq_none_iff]
+  cases h : s.isInt with
+  | false => rfl
+  | true =>
+    exfalso
+    rcases String.isInt_iff.1 h with h1 | ⟨t, rfl, h1⟩
+    · rcases (String.isNat_iff.1 h1).2.1 c hm with h2 | h2
+      · rw [hd] at h2; cases h2
+      · exact hu h2
+    · have hm' : c ∈ t.toList := by
+        rw [String.toList_append] at hm
+        rcases List.mem_append.mp hm with h2 | h2
+        · have : "-".toList = ['-'] := by decide
+          rw [this] at h2
+          exact absurd (List.mem_singleton.mp h2) hmin
+        · exact h2
+      rcases (String.isNat_iff.1 h1).2.1 c hm' with h2 | h2
+      · rw [hd] at h2; cases h2
+      · exact hu h2
+
+theorem toInt_http : "http".toInt? = none :=
+  toInt?_eq_none_of_mem (c := 'h') (by decide) (by decide) (by decide) (by decide)
+theorem toInt_80_80 : "80/80".toInt? = none :=
+  toInt?_eq_none_of_mem (c := '/') (by decide) (by decide) (by decide) (by decide)
+
+theorem setup_peers :
+    getPeer (init.run setup).eng "n/a" = .ok (.pod podA (some (Engine.nsFromCore nsN))) ∧
+    getPeer (init.run setup).eng "n/b" = .ok (.pod podB (some (Engine.nsFromCore nsN))) := by
+  rw [getPeer_na, getPeer_nb]
+  constructor <;> rfl
+
+/-- the hypotheses of `bad_port_always_rejected` are satisfiable: the query `a → b` on `TCP` with
+the port string `"http"` in the state after `setup` -/
+example : ((init.run setup).checkIfAllowed "n/a" "n/b" "TCP" "http").1 = .error .badPort :=
+  bad_port_always_rejected (init.run setup) "n/a" "n/b" "TCP" "http" _ _ setup_peers.1 setup_peers.2
+    (by decide) toInt_http (by decide)
+
+/-- … and of `bad_port_leaves_state` -/
+example : (init.run setup).checkIfAllowed "n/a" "n/b" "TCP" "http" = (.error .badPort, init.run setup) :=
+  bad_port_leaves_state (init.run setup) "n/a" "n/b" "TCP" "http" _ _ setup_peers.1 setup_peers.2
+    (by decide) toInt_http (by decide)
+
+theorem hist_eng : (init.run hist).eng = { (init.run setup).eng with netpols := [denyB] } := by
+  rw [hist_eq, run_append, after_first]
+  rfl
+
+theorem hist_peers :
+    getPeer (init.run hist).eng "n/a" = .ok (.pod podA (some (Engine.nsFromCore nsN))) ∧
+    getPeer (init.run hist).eng "n/b" = .ok (.pod podB (some (Engine.nsFromCore nsN))) := by
+  rw [getPeer_na, getPeer_nb, hist_eng]
+  constructor <;> rfl
+
+/-- the hypotheses of `bad_port_never_answered` are satisfiable: after the history `hist` (with
+its cached and cleared verdicts) the query with the port `"http"` -/
+example : ((init.run hist).checkIfAllowed "n/a" "n/b" "TCP" "http").1 = .error .badPort :=
+  bad_port_never_answered 10 hist "n/a" "n/b" "TCP" "http" _ _
+    hist_peers.1 hist_peers.2 (by decide) toInt_http (by decide)
+
+/-- **the validation precedes the cache lookup: a colliding key cannot answer a port that does not
+parse.** The key is a string concatenation: the queries `("TCP/80", "80")` and `("TCP", "80/80")`
+of `a → b` have the same key. The first passes the validation (`"80"` parses) and is answered
+`true` and cached — the engine holds no policy, no rule compares the protocol. The second, whose
+port `"80/80"` does not parse, finds that entry under its key — and is rejected all the same, as
+without cache, and leaves the cache as it is. (With the validation placed after the lookup it
+was answered by the cached `true`.) -/
+def collideQ : HOp := .q "n/a" "n/b" "TCP/80" "80"
+def collideKey : String := "n/ra/map[app:a]$/n/rb/map[app:b]$/TCP/80/80"
+
+theorem verdict_tcp80_80 (e : Engine) (sp dp : KPeer) :
+    verdict e sp dp "TCP/80" "80" = walk e sp dp "TCP/80" "80" := verdict_of_toInt e sp dp toInt_80
+
+theorem answer_tcp80_80 (s : EState) (sp dp : KPeer) :
+    s.answer sp dp "TCP/80" "80" = s.cachedAnswer sp dp "TCP/80" "80" :=
+  answer_goodQuery s sp dp (badQuery_of_toInt toInt_80)
+
+theorem after_collide : init.run (setup ++ [collideQ]) =
+    { eng := (init.run setup).eng, cache := { items := [(collideKey, true)], cap := 10 },
+      owners := (init.run setup).owners } := by
+  rw [run_append]
+  show ((init.run setup).checkIfAllowed "n/a" "n/b" "TCP/80" "80").2 = _
+  rw [checkIfAllowed_eq, getPeer_na, getPeer_nb]
+  simp only [answer_tcp80_80, cachedAnswer, verdict_tcp80_80]
+  rfl
+
+theorem collide_peers :
+    getPeer (init.run (setup ++ [collideQ])).eng "n/a" =
+      .ok (.pod podA (some (Engine.nsFromCore nsN))) ∧
+    getPeer (init.run (setup ++ [collideQ])).eng "n/b" =
+      .ok (.pod podB (some (Engine.nsFromCore nsN))) := by
+  rw [after_collide]
+  exact setup_peers
+
+theorem collision_rejected :
+    "80/80".toInt? = none ∧
+    -- the colliding entry is there, under the key of the query that does not validate
+    (init.run (setup ++ [collideQ])).cache.items = [(collideKey, true)] ∧
+    connKey (.pod podA (some (Engine.nsFromCore nsN))) (.pod podB (some (Engine.nsFromCore nsN)))
+      "TCP" "80/80" = collideKey ∧
+    -- and yet the query is rejected, the state unchanged, as without cache
+    (init.run (setup ++ [collideQ])).checkIfAllowed "n/a" "n/b" "TCP" "80/80" =
+      (.error .badPort, init.run (setup ++ [collideQ])) ∧
+    (init.run (setup ++ [collideQ])).uncached "n/a" "n/b" "TCP" "80/80" = .error .badPort := by
+  refine ⟨toInt_80_80, ?_, ?_, ?_, ?_⟩
+  · rw [after_collide]
+  · decide
+  · exact bad_port_leaves_state _ "n/a" "n/b" "TCP" "80/80" _ _ collide_peers.1 collide_peers.2
+      (by decide) toInt_80_80 (by decide)
+  · rw [← bad_port_transparent _ _ _ _ _ toInt_80_80 (by decide)]
+    rw [bad_port_leaves_state _ "n/a" "n/b" "TCP" "80/80" _ _ collide_peers.1 collide_peers.2
+      (by decide) toInt_80_80 (by decide)]
+
+/-- the cached key of that state is the key of a validated query, as `cache_only_validated` says
+(and also the key of the query that does not validate) -/
+example : (init.run (setup ++ [collideQ])).CacheValidated := cache_only_validated 10 _
 
 /-- admin policies inserted as priority 5, 3, 4 are held as 3, 4, 5; deleting an absent one
 changes nothing but the (empty) cache -/
